@@ -525,6 +525,9 @@ def _plan(case, io):
             plan.append(("forward", [0, EPS, case["P"], io["fwd"]], io["fwd"]))
         if _inv_hyp(case):
             plan.append(("inverse", [2, EPS, case["P"], io["inv"]], io["inv"]))
+    if kind == "rows":
+        for n, ks in io["split"]:
+            plan.append(("key halves", [5, EPS, case["ejks"][n], ks], ks))
     if kind == "rows" and not core.is_exc(io["rows"]):
         used = dict((n, ks) for n, ks in io["used"])
         for n, q in io["rows"]:
@@ -534,6 +537,7 @@ def _plan(case, io):
     if kind == "net":
         jds, es = _net_of(case, io)
         T = len(case["names"])
+        plan.append(("jdd_from_network", [6, EPS, jds, io["jdd"]], io["jdd"]))
         if jds and all(len(k) == T and all(x >= 0 for x in k) for k in jds):
             cs = _clean_cs(case["names"], jds, es)
             if cs is not None and all(t < T for _, _, t in es):
